@@ -79,7 +79,7 @@ CHECKS = {
         "engine": "input-enum", "category": "model_checking", "design_ref": "DESIGN.md §2 C01",
         "technique": "bounded-exhaustive enumeration of wikitext over the full lexeme alphabet (flat, embedding contexts, template universes, nesting to depth 40, 12 languages) plus pumped growth measurement",
         "text": SMALL_SCOPE + "families flat (SIGMA^<=2 with/without database, SIGMA_CORE^3), ctx (42 contexts x SIGMA, incl. inside nowiki/pre/source/math and a heading line across table cells), tagattr (every tag and wiki-table position x attribute x value spelling), templ (template bodies incl. tag-routed recursion x l1 x l2 x call/arg, swept over three caller stack depths), nest (14 constructs x depths to 40 x closed/open/crossed), "
-                "lang (12 sites; every namespace name any site knows as a link prefix on every site, with/without database), pump (every lexeme x frames, n=32/128/512, growth exponent); oracle: returns an Article, no exception of any kind, watchdog not hit, exponent <= 3.3.",
+                "lang (12 sites; every namespace name any site knows as a link prefix on every site, with/without database), pump (every lexeme x frames, n=32/128/512, growth exponent); oracle: returns an Article, no exception of any kind, watchdog (20 s CPU per parse) not hit, exponent <= 3.3 (smallest of up to 3 back-to-back rounds).",
         "note": "alphabet of about 240 lexemes in mc/gen/wikitext.py (incl. forged strip markers, malformed numeric references, numbers that select an amount of work); polynomial time is measured on pumped families, not proved; a pumped lexeme that recurses at n>=128 is a nesting opener and counted as outside the property (depth > 40).",
     },
     "C05": {
@@ -100,7 +100,7 @@ CHECKS = {
         "engine": "input-enum", "category": "model_checking", "design_ref": "DESIGN.md §2 C03",
         "technique": "bounded-exhaustive enumeration of magic-word/parser-function calls (every registered name and site alias x argument tuples), template universes with every cyclic call graph, and malformed template syntax",
         "text": SMALL_SCOPE + "every registered function name (MagicResolver attributes, #-functions, dummy resolvers, magic_nodes.registry) and every alias in the 12 bundled sites x argument count 0..2 (quick) / 0..3 (thorough) x 20 shapes x colon/pipe form; "
-                "all universes of 2 (quick) / 3 (thorough) templates over 9 call/parameter items (all call graphs incl. cycles); all strings over a 24-symbol template alphabet up to length 4 / 5. Oracle: str result, no exception, CPU <= 2 s, output <= 64 x input + 4096.",
+                "all universes of 2 (quick) / 3 (thorough) templates over 9 call/parameter items (all call graphs incl. cycles); all strings over a 24-symbol template alphabet up to length 4 / 5. Oracle: str result, no exception, CPU <= the cost of 65000 plain template calls measured in the same process at the same moment (= 2 s on the idle sandbox; best of up to 3 runs), output <= 64 x input + 4096.",
         "note": "argument shapes are a fixed list (incl. huge/negative/decimal/exponent numbers, power towers, paths, nested calls).",
     },
     "C04": {
